@@ -215,6 +215,20 @@ THOROUGH_EXTRA = {
     "C15": [fam("retainx", 0, "--entries", "10")],
     "C16": [fam("panicx", 0, "--rounds", "6")],
 }
+# Search aid of the thorough tier (never evidence of absence): the same harness families interpreted by
+# Miri, which reports undefined behaviour the observable state may hide (reads of freed or moved-out
+# memory that happen to find the old bytes, aliasing violations, data races between `&self` readers).
+MIRI_PLAN = {
+    "C06": [fam("iter", 8), fam("forget", 6), fam("clone", 5), fam("tiny", 10), fam("retain", 5)],
+    "C07": [fam("tiny", 12), fam("rand", 5), fam("clone", 4), fam("iter", 5), fam("mutate", 5)],
+    "C12": [fam("iter", 16), fam("iterx", 0, "--entries", "2", "--calls", "3")],
+    "C14": [fam("clone", 14)],
+    "C16": [fam("panic", 24)],
+    "C17": [fam("forget", 16), fam("forgetx", 0, "--entries", "2", "--calls", "3")],
+    "C19": [fam("readers", 14), fam("order", 6)],
+}
+MIRI_FLAGS = "-Zmiri-disable-isolation -Zmiri-permissive-provenance -Zmiri-ignore-leaks"
+
 EXHAUSTIVE_FAMILIES = {"iterx", "forgetx", "retainx", "capx", "panicx", "exh", "slide", "tomb"}
 SHARDED = {"iterx", "forgetx", "retainx", "panicx", "exh", "slide", "tomb"}
 
@@ -466,6 +480,69 @@ def monitor_failures(res):
     except FileNotFoundError:
         pass
     return out
+
+
+def miri_aid(ctx):
+    """Runs this property's small families under Miri. Returns (violation or None, notes)."""
+    h = os.path.join(ctx.root, "harness")
+    env = {"MIRIFLAGS": MIRI_FLAGS}
+    base = ["cargo", "+nightly", "miri", "run", "--offline", "--target-dir", "target-miri"] + ([] if ctx.hooks else ["--no-default-features"]) + ["--"]
+    p0 = os.path.join(ctx.work, "miri_build")
+    rc, out = run(base + ["--family", "tiny", "--seqs", "1", "--seed", "1", "--out", p0], cwd=h, timeout=1500, env=env)
+    if rc != 0 and "Undefined Behavior" not in out:
+        return None, ["Miri aid skipped: the harness does not build/run under `cargo +nightly miri` here:\n" + out[-600:]]
+    jobs = []
+    for (family, seqs, extra) in MIRI_PLAN.get(ctx.prop, []):
+        if family in SHARDED:
+            for sh in range(4):
+                jobs.append((family, 0, extra + ["--shard", f"{sh}/4"]))
+        else:
+            per = max(1, seqs // 4)
+            for sh in range(min(4, seqs)):
+                jobs.append((family, per, extra))
+    def one(a):
+        i, (family, seqs, extra) = a
+        prefix = os.path.join(ctx.work, f"miri_{family}_{i}")
+        cmd = base + ["--family", family, "--seqs", str(seqs), "--seed", str(ctx.seed * 131 + i), "--out", prefix, "--careful"] + extra
+        rc, out = run(cmd, cwd=h, timeout=1200, env=env)
+        return {"prefix": prefix, "rc": rc, "out": out, "family": family, "cmd": " ".join(cmd)}
+    with cf.ThreadPoolExecutor(max_workers=NCPU) as ex:
+        results = list(ex.map(one, enumerate(jobs)))
+    lines = 0
+    for r in results:
+        try:
+            lines += sum(1 for _ in open(r["prefix"] + ".ops"))
+        except FileNotFoundError:
+            pass
+    notes = [f"Miri aid: {len(jobs)} runs, {lines} operation lines interpreted ({MIRI_FLAGS})"]
+    for r in results:
+        ub = "Undefined Behavior" in r["out"] or "Data race detected" in r["out"]
+        if not ub:
+            if r["rc"] == TIMEOUT_RC:
+                notes.append(f"Miri run of family {r['family']} stopped after its time budget (not an alarm)")
+            elif r["rc"] != 0:
+                notes.append(f"Miri run of family {r['family']} ended with status {r['rc']} without an undefined-behaviour report (not an alarm): " + r["out"][-300:])
+            continue
+        # the sequence that was running: the RUN lines since the last constructor of cache 0
+        try:
+            mon = [l.split(" ", 2)[2].rstrip("\n") for l in open(r["prefix"] + ".mon") if l.startswith("RUN ")]
+        except FileNotFoundError:
+            mon = []
+        start = max([i for i, l in enumerate(mon) if l.split(" ")[1:2] == ["new"] and l.split(" ")[2:3] == ["0"]] or [0])
+        header = "# seq 1 hasher=mix"
+        try:
+            hs = [l.rstrip("\n") for l in open(r["prefix"] + ".ops") if l.startswith("# seq")]
+            if hs:
+                header = hs[-1]
+        except FileNotFoundError:
+            pass
+        m = re.search(r"error: (Undefined Behavior|Data race)[^\n]*(\n[^\n]*){0,12}", r["out"])
+        path = write_replay(ctx, "miri", header, mon[start:],
+                            "Miri reports undefined behaviour while the real code runs this sequence (the last line is the call in progress):\n"
+                            + (m.group(0) if m else r["out"][-1500:]),
+                            {"how_to_reproduce": "cd /verif/harness && MIRIFLAGS='" + MIRI_FLAGS + "' " + r["cmd"]})
+        return (path, notes), notes
+    return None, notes
 
 
 # ---------------------------------------------------------------------------- replay / shrink
@@ -836,6 +913,11 @@ def main(root, argv):
     if problems and not violations:
         path = write_replay(ctx, "proof", "", [], "proof obligations no longer check:\n" + "\n".join(problems))
         violations.append(("proof", path, " no-failing-input-found"))
+    if tier == "thorough" and prop in MIRI_PLAN and not violations and os.environ.get("VERIF_NO_MIRI") != "1":
+        hit, mnotes = miri_aid(ctx)
+        ctx.notes += mnotes
+        if hit:
+            violations.append(("miri", hit[0], ""))
 
     tot, nontrivial, samples = merge_stats(good)
     thm_samples = [f"{t}: axioms {a if a else '[]'}" for t, a in list(axioms.items())[:40]]
